@@ -125,7 +125,40 @@ class Walk:
         return "ok"
 
 
+WIDE_TIDS = [3, 7, 8, 9, 10, 11, 12, 19, 20, 99, 100, 101, 999, 1000, 65535, 65536, 2**31 - 1]
+WIDE_LOOMS = ["node1", "node10", "node2", "n", "node1-b", "node01", "Node1", "xnode"]
+
+
+def wide_sys(r, require=None):
+    """A hierarchy past the single-digit sizes: 3-4 looms whose names are
+    prefixes of one another (string order differs from numeric order), 9-12
+    threads in one process with TIDs like 9, 10, 100, 65536, 2^31-1, up to 11
+    CPUs with sparse unordered physical ids."""
+    looms = []
+    names = r.sample(WIDE_LOOMS, r.choice([3, 4]))
+    pool = list(WIDE_TIDS)
+    r.shuffle(pool)
+    big = r.randrange(len(names))
+    for li, name in enumerate(names):
+        nprocs = r.choice([1, 2, 3])
+        procs = []
+        for p in range(nprocs):
+            nt = r.choice([9, 10, 12]) if (li == big and p == 0) else r.choice([1, 2])
+            nt = min(nt, len(pool))
+            tids = [pool.pop() for _ in range(nt)]
+            if not tids:
+                continue
+            procs.append((r.choice([1, 9, 10, 11, 100]) * 1000 + 10 * li + p, tids))
+        nc = r.choice([9, 10, 11]) if li == big else r.choice([1, 2])
+        phy = r.sample(range(0, 300), nc)
+        if procs:
+            looms.append((name, procs, phy))
+    return Sys(looms, require or {"ovni": "1.1.0"})
+
+
 def small_sys(r, nthreads=None, nlooms=None, ncpus=None, require=None):
+    if nthreads is None and nlooms is None and ncpus is None and r.random() < 0.08:
+        return wide_sys(r, require)
     nlooms = nlooms or r.choice([1, 1, 1, 2])
     looms = []
     tid = 10
